@@ -125,12 +125,14 @@ def gen(rng, tier, i):
 
     if console_mode:
         p.cycle(cons('do name con'))
+    clock_steps = rng.random() < 0.15
     n_body = rng.randint(3, 25 if tier == 'quick' else 40)
     for _ in range(n_body):
         acts = [a for a in enabled]
         a = rng.choice(sorted(acts))
         t = targets()
         if a == 'tick':
+            if clock_steps and rng.random() < 0.3: p.cycle('adv %d' % (rng.choice((-1, -2, -31, -3600, -2000000)) * 1000000))     # the wall clock is set back
             p.cycle(tick(rng.choice((TICK, TICK, TICK, 1000000, 3000000, 5000000))))
         elif a == 'stall':
             p.cycle(stall(rng.choice((4, 10, 70, 901)) * 1000000, rng.randint(1, 3)))
@@ -396,32 +398,41 @@ def _timers_alive(plan, res):
     evs = res.events
     err_cycles = _error_cycles(res)
     sets = {}; fired = set(); gone = set()
+    # the wall clock of the simulation, made monotonic (a plan may set it back): seconds that passed
+    msec = {}; prev = None; off = 0
+    for e in evs:
+        if prev is not None and e.vus < prev: off += prev - e.vus
+        prev = e.vus; msec[id(e)] = 1000000000 + (e.vus + off) // 1000000
+    stepped = off > 0
     for e in evs:
         if e.kind == 'R':
             w = e.rest.split(' ')
             # every call_out of every object that stays: the CO record is written when the callback starts, whatever it does then
             if w[0] == 'COSET' and len(w) > 2:
                 kv = dict(t.split('=', 1) for t in w if '=' in t)
-                sets[(w[1], w[2])] = (e.cycle, int(kv['t']) + max(int(kv['d']), 1))
+                # (after a clock step the driver's time() is no reference any more: count from the moment of the call, which is
+                # never earlier than the driver's own idea of now)
+                sets[(w[1], w[2])] = (e.cycle, (msec[id(e)] + 1 if stepped else int(kv['t'])) + max(int(kv['d']), 1))
             elif w[0] == 'CO' and len(w) > 2: fired.add((w[1], w[2]))
             elif w[0] in ('QUIT', 'DEST', 'EXEC', 'EXECD', 'NETDEAD', 'RELOAD') and len(w) > 1: gone.add(w[1])
     # an injected fault can stop a callback before it has written its record: the error report then names co_fire as the
     # outermost frame; which call_out of that object it was cannot be told, so that object's call_outs are not judged
     for i, e in enumerate(evs):
         if e.kind == 'fault_fired':
-            if not any(x.kind == 'R' and x.rest.startswith('ERR ') for x in evs[i + 1:i + 12]):
+            if not any(x.kind == 'R' and x.rest.startswith('ERR ') and x.cycle == e.cycle for x in evs[i + 1:i + 12]):
                 # the fault was reported on the debug log only (the master's handler failed under the same shortage): where
                 # it struck is unknown, so call_outs that were due by then are not judged
-                t_now = 1000000000 + e.vus // 1000000
+                t_now = msec[id(e)]
                 for key, (cyc0, due0) in list(sets.items()):
                     if due0 <= t_now: fired.add(key)
             for x in evs[i + 1:i + 12]:
+                if x.cycle != e.cycle: break
                 m = re.search(r'object=(\S+) .*trace=co_?f\w*@', x.rest) if x.kind == 'R' and x.rest.startswith('ERR ') else None
                 if m:
                     gone.add(m.group(1))
                     # (the object may be known to the records under a tag that its NAME record - lost to an earlier fault -
                     # never announced: whatever was due by now is not judged)
-                    t_now = 1000000000 + e.vus // 1000000
+                    t_now = msec[id(e)]
                     for key, (cyc0, due0) in list(sets.items()):
                         if due0 <= t_now: fired.add(key)
     for e in evs:       # objects appear under their tag once they have one
@@ -433,9 +444,9 @@ def _timers_alive(plan, res):
         # an error-free tick at or after the due time?
         for e in evs:
             if e.kind == 'step' and re.match(r'&?step (tick|stall) ', e.rest) and e.cycle > cyc and e.cycle not in err_cycles:
-                t = 1000000000 + e.vus // 1000000
+                t = msec[id(e)]
                 nxt = [x for x in evs if x.cycle == e.cycle and x.kind == 'eventfd_read']
-                if nxt: t = 1000000000 + nxt[0].vus // 1000000
+                if nxt: t = msec[id(nxt[0])]
                 if t >= due + 1:
                     v.append(Violation(PROP, 'timers', 'call_out %s of %s (due t=%d) did not fire in the error-free tick of cycle %d (t=%d)' % (cid, who, due, e.cycle, t),
                                        PROP + '/liveness/call_out-never-fires'))
